@@ -49,6 +49,15 @@ SPEC = Spec(
         "MExpr.goQuote is strconv.Quote restricted to text that needs no escaping (exact for the marker)",
     ],
     assumptions=[
+        "the fmt / json / yaml / gob / zap / slog dispatch is a hand model written from go1.23 sources; it is enumerated against the libraries of the default toolchain (go 1.23.5) on every "
+        "run and against go1.26 in the thorough tier (harness fmt_go126)",
+        "clauses 'explicit conversion returns the secret' and 'unmarshalling stores it unchanged' have NO model of the decode path: they are carried by the `op unm` differential "
+        "(positions x YAML-looking secrets through the real Resolver) and by two regenerated facts (no UnmarshalText/JSON on the type, the squash hook keeps fields); the definitional "
+        "lemmas are named def_* and not counted",
+        "maps with SEVERAL opaque keys are outside `plainIn`: fmt orders entries by the raw key (internal/fmtsort), so the ORDER of the entries depends on the secrets (not their text); "
+        "multi-entry maps with plain keys (headers) are generated and printed in fmtsort order",
+        "gob omits a struct field holding the zero value before it consults the type's marshalers: an EMPTY opaque field is left out (emptiness only, like omitempty)",
+        "marshalling paths are tied by 8 secret pairs per run (fixed classes incl. the empty secret, the marker itself, a 1200-byte one, + 3 drawn per run) x 2-4 shapes per path",
         "configuration structs keep opaque strings in exported fields (fmt cannot call methods on unexported fields: counted in the evidence, outside the property's containers)",
         "omitempty on an opaque field reveals whether the secret is empty (C14_encode_omitempty_reveals_emptiness); the non-interference theorem is stated for environments that agree on emptiness",
         "types with their own confmap.Marshaler / yaml tags without mapstructure tags are outside the encoder model",
